@@ -113,6 +113,9 @@ func getter(ctx graphql.FieldContext) (interface{}, error) {
 	}
 	it := r.items[g.item]
 	if r.syncMode {
+		if r.altSync && !it.ok {
+			return edgesOf(spec, g.edges), nil
+		}
 		return r.valueOf(it)
 	}
 	r.noteCreate(it)
